@@ -1,7 +1,7 @@
 (* Props_C12.v — C12: attenuated-signal flags compare the trailing window's spread with thresholds.
    Only statements, `exact <lemma>` and Print Assumptions.
    (statements written out by tools/mk_props.py from the lemmas they restate) *)
-From IoosQc Require Import Base Generated Attenuated AttenuatedProofs.
+From IoosQc Require Import Base Generated Attenuated AttenuatedProofs Skel SkelProofs.
 From Coq Require Import String.
 
 (* for all series, missing patterns, both check types, with and without test_period, all min_obs / min_period settings and all thresholds (fail above suspect included): model = specification on the stated domain (windowed mode: increasing time axis of the same length, positive period, non-negative minimum; for 'range' no missing value inside the window of a present point — outside that clause the code reports UNKNOWN, known finding F19) *)
@@ -156,6 +156,16 @@ Theorem C12_range_nan_refuted :
            atten_model check st ft tp mo mp xs ts <> atten_spec check st ft tp mo mp xs ts.
 Proof. exact (@atten_refuted_range_nan). Qed.
 Print Assumptions C12_range_nan_refuted.
+
+(* TRANSLATOR TIE: the skeleton generated from the current source of attenuated_signal_test (>= suspect GOOD, < suspect SUSPECT, isnan UNKNOWN, < fail FAIL, mask MISSING, after the empty-input return) run on the spread array yields exactly the model's flag overwrites (stated for check_type range, where the array holds the spread itself; for std the model compares variances) *)
+Theorem C12_source_skeleton :
+  forall (st ft : Q) (xs : list obs) (cv : list (option Q)),
+         xs <> [] ->
+         atten_flags Range st ft xs cv =
+         run_steps (env_atten st ft xs cv) skel_attenuated_signal_test
+           (all_flags (Datatypes.length xs) UNKNOWN).
+Proof. exact (@skel_atten_range). Qed.
+Print Assumptions C12_source_skeleton.
 
 Theorem C12_assign_order : assign_order_attenuated_signal_test = [UNKNOWN; GOOD; SUSPECT; UNKNOWN; FAIL; MISSING].
 Proof. reflexivity. Qed.
